@@ -44,7 +44,10 @@ CHECKS.update({
         note=DESER_NOTE, technique="Coq proof (compiler correctness of the method tree vs declarative data model) + differential correspondence",
         design_ref="DESIGN.md §4 C01"),
     "C02": dict(
-        text="Coq theorems: the children of a rejection are EXACTLY the failing elements under their own index "
+        text="Coq theorems: the children of the rejection of an object are EXACTLY, in declaration order, the fields whose value is "
+             "rejected (under the external name, with that field's own error), the missing required fields, the fields required by "
+             "a present one, then the unexpected properties (C02_object_children_exact, C02_object_no_hiding, "
+             "C02_missing_required_field_reported); the children of a rejected array are EXACTLY the failing elements under their own index "
              "(C02_array_children_exact / C02_list_rejection_exact), siblings never hide each other, no entry at a valid "
              "location, `errors` lists own messages first then children in sorted key order (insertion sort proved sorted + "
              "permutation). Tie: the FULL errors list of the implementation is compared with the model's on every case; "
@@ -159,15 +162,18 @@ CHECKS.update({
              "schema accepts exactly the listed values, the schema built for a union (every branch of _visited_union: Any "
              "absorption, merged type lists, null merged into a typed schema, anyOf) accepts exactly the disjunction of the "
              "alternatives' schemas for any definitions and depth, the pre-fix null merge is refuted, and the statement itself "
-             "(schema accepts iff the deserialization spec accepts) is proved for every object-free type (primitives, literals, "
-             "enums, collections, tuples, mappings, unions, constraints) at any depth "
-             "(C06_schema_accepts_iff_deserializer_accepts_object_free). Partial: for classes the statement is evaluated case by "
-             "case (agree_case, vm_compute) rather than proved; discriminated unions are probed on the implementation (two known "
-             "findings). Tie: builder model = deserialization_schema (structural), jvalid = jsonschema (oracle), "
+             "(schema accepts iff the deserialization spec accepts) is proved: for every object-free type "
+             "(C06_schema_accepts_iff_deserializer_accepts_object_free), for classes given inline nested to any depth "
+             "(..._inline_classes) and for classes given through $ref + $defs, recursive ones included, against the schema and the "
+             "definitions the builder emits (..._with_classes: induction on the nesting of objects in the datum; the names C<n> / "
+             "E<n> are proved injective); all hypotheses are executable and the run evaluates them on every case (about 90% of the "
+             "agreement cases lie inside the theorem, whose conclusion is what agree_case evaluates). Partial: dependentRequired, "
+             "reordered fields, fall_back_on_default and a per-call root schema over a class are evaluated case by case; "
+             "discriminated unions are probed on the implementation (two known findings). Tie: builder model = deserialization_schema (structural), jvalid = jsonschema (oracle), "
              "deserialize accepts iff jsonschema validates (model-free), on generated types x data.",
         note=SCHEMA_NOTE + " Common domain: literal start-anchored patterns, no integer-valued float, |int| < 2^1000, uniqueness "
              "of set-typed arrays not compared, no fall_back_on_default.",
-        technique="Coq proof (schema = deserializer on the object-free fragment, union / literal / constraint lemmas) + three-way correspondence (builder model, validator model, jsonschema oracle)",
+        technique="Coq proof (schema = deserializer, incl. nested, referenced and recursive classes; union / literal / constraint lemmas) + three-way correspondence (builder model, validator model, jsonschema oracle)",
         design_ref="DESIGN.md §4 C06"),
     "C17": dict(
         text="Coq theorems on the builder model: every $ref in the schema built for any type (any universe, recursion, options, "
